@@ -1069,4 +1069,87 @@ set_option maxRecDepth 100000 in
     element and in iteration order, the lists the source produces for 11 lattice shapes up to Chimera(3, 3, 2) and Chimera(2, 2, 4) -/
 theorem chimera_edge_iterators_match_generated_tables : chimeraEdgeTables.all chimeraRowOK = true := by decide +kernel
 
+/-! ## `mimo('QPSK', y, F)` as coded: the quadrature form, and the data-dependent real form (known finding D65) -/
+
+theorem mimo_qpsk_refuses_iff (nt : Nat) (yr yi : List Rat) (Fr Fi : List (List Rat)) :
+    mimoQpsk nt yr yi Fr Fi = none ↔
+      (Fr.length ≠ yr.length ∨ Fi.length ≠ yi.length ∨ yr.length ≠ yi.length
+        ∨ (∃ row ∈ Fr, row.length ≠ nt) ∨ (∃ row ∈ Fi, row.length ≠ nt)) := by
+  unfold mimoQpsk
+  split
+  · rename_i h; simp only [List.any_eq_true, decide_eq_true_eq] at h; simp [h]
+  · rename_i h
+    simp only [List.any_eq_true, decide_eq_true_eq] at h
+    have hs : ¬ (Fr.length ≠ yr.length ∨ Fi.length ≠ yi.length ∨ yr.length ≠ yi.length
+        ∨ (∃ row ∈ Fr, row.length ≠ nt) ∨ (∃ row ∈ Fi, row.length ≠ nt)) := h
+    simp only [hs, iff_false]
+    have hlen1 : (stackF Fr Fi).length = (yr ++ yi).length := by
+      simp only [stackF, List.length_append, List.length_map, List.length_zip]; omega
+    have hrow1 : ∀ row ∈ stackF Fr Fi, row.length = 2 * nt := by
+      intro row hrow
+      simp only [stackF, List.mem_append, List.mem_map] at hrow
+      rcases hrow with ⟨p, hp, rfl⟩ | ⟨p, hp, rfl⟩ <;>
+        (have h1 := List.of_mem_zip hp
+         have a : p.1.length = nt := by
+           by_cases c : p.1.length = nt
+           · exact c
+           · exact absurd (Or.inr (Or.inr (Or.inr (Or.inl ⟨p.1, h1.1, c⟩)))) hs
+         have b : p.2.length = nt := by
+           by_cases c : p.2.length = nt
+           · exact c
+           · exact absurd (Or.inr (Or.inr (Or.inr (Or.inr ⟨p.2, h1.2, c⟩)))) hs
+         simp only [List.length_append, List.length_map]; omega)
+    have hlen2 : (Fr ++ Fi).length = (yr ++ yi).length := by simp only [List.length_append]; omega
+    have hrow2 : ∀ row ∈ Fr ++ Fi, row.length = nt := by
+      intro row hrow
+      simp only [List.mem_append] at hrow
+      by_cases c : row.length = nt
+      · exact c
+      · rcases hrow with hrow | hrow
+        · exact absurd (Or.inr (Or.inr (Or.inr (Or.inl ⟨row, hrow, c⟩)))) hs
+        · exact absurd (Or.inr (Or.inr (Or.inr (Or.inr ⟨row, hrow, c⟩)))) hs
+    split
+    · intro hnone
+      rw [mimo_refuses_iff] at hnone
+      rcases hnone with h1 | ⟨row, hrow, h2⟩
+      · exact h1 hlen1
+      · exact h2 (hrow1 row hrow)
+    · intro hnone
+      rw [mimo_refuses_iff] at hnone
+      rcases hnone with h1 | ⟨row, hrow, h2⟩
+      · exact h1 hlen2
+      · exact h2 (hrow2 row hrow)
+
+/-- **the quadrature form encodes `‖y − F·v‖²`**: when `F†y` or `F†F` has a non-zero imaginary part, the energy at `x` is the
+    residual of the stacked real system `(yr; yi) − [[Fr, −Fi], [Fi, Fr]]·(p; q)` — the squared real parts plus the squared
+    imaginary parts of `y − F·(p + i·q)`, `p = x[0:nt]`, `q = x[nt:2nt]` -/
+theorem mimo_qpsk_energy (nt : Nat) (yr yi : List Rat) (Fr Fi : List (List Rat)) (bag : List (PTerm Label))
+    (h : mimoQpsk nt yr yi Fr Fi = some bag) (hc : qpskIsComplex nt yr yi Fr Fi = true) (x : Label → Rat) :
+    evalBag x bag = residual x (2 * nt) (yr ++ yi) (stackF Fr Fi) := by
+  unfold mimoQpsk at h
+  split at h
+  · simp at h
+  · try rw [if_pos hc] at h
+    exact mimo_bpsk_energy _ _ _ bag h x
+
+/-- **known finding D65, stated**: when `F†y` and `F†F` happen to be real the model has only the `nt` real-part variables and its
+    energy is the residual of `(yr; yi) − [Fr; Fi]·p`: the imaginary parts `q` of the symbols do not occur -/
+theorem mimo_qpsk_real_form_drops_imaginary_parts (nt : Nat) (yr yi : List Rat) (Fr Fi : List (List Rat)) (bag : List (PTerm Label))
+    (h : mimoQpsk nt yr yi Fr Fi = some bag) (hc : qpskIsComplex nt yr yi Fr Fi = false) (x : Label → Rat) :
+    evalBag x bag = residual x nt (yr ++ yi) (Fr ++ Fi) := by
+  unfold mimoQpsk at h
+  split at h
+  · simp at h
+  · have hn : ¬ (qpskIsComplex nt yr yi Fr Fi = true) := by rw [hc]; simp
+    try rw [if_neg hn] at h
+    exact mimo_bpsk_energy _ _ _ bag h x
+
+/-- witness (real data `y = (1, 2)`, `F = [[1, −1], [1, 1]]`): the model has 2 variables, the documented encoding has 4 -/
+example : qpskIsComplex 2 [1, 2] [0, 0] [[1, -1], [1, 1]] [[0, 0], [0, 0]] = false
+    ∧ (mimoQpsk 2 [1, 2] [0, 0] [[1, -1], [1, 1]] [[0, 0], [0, 0]]).map
+        (fun bag => ((Bq.empty .spin : Bq Label).apply bag).lin.length) = some 2 := by decide +kernel
+example : qpskIsComplex 2 [1, 2] [1, 0] [[1, -1], [1, 1]] [[0, 0], [0, 0]] = true
+    ∧ (mimoQpsk 2 [1, 2] [1, 0] [[1, -1], [1, 1]] [[0, 0], [0, 0]]).map
+        (fun bag => ((Bq.empty .spin : Bq Label).apply bag).lin.length) = some 4 := by decide +kernel
+
 end C17
